@@ -763,20 +763,30 @@ func runQuerier(c *Case) {
 		c.Err, c.ErrText = "statements", fmt.Sprintf("main %d labels %d other %v", len(sc.mainSQL), len(sc.labelsSQL), sc.otherSQL)
 		return
 	}
-	set := ss.(*model.SeriesSet)
+	// read the result the way the PromQL engine does: through storage.SeriesSet (Next/At), storage.Series (Labels,
+	// Iterator) and chunkenc.Iterator (Next/At); after the end every further call has to report the end
 	p = hx.Catch(func() {
-		for _, s := range set.Series {
+		for ss.Next() {
+			s := ss.At().(*model.Series)
 			o := OutSeries{Fp: s.Fp, Labels: [][2]string{}, Samples: [][2]int64{}}
 			for _, l := range s.Labels() {
 				o.Labels = append(o.Labels, [2]string{l.Name, l.Value})
 			}
-			for _, sm := range s.Samples {
-				if sm.Value != float64(int64(sm.Value)) {
+			it := s.Iterator()
+			for it.Next() {
+				t, v := it.At()
+				if v != float64(int64(v)) {
 					panic("non-integral sample value")
 				}
-				o.Samples = append(o.Samples, [2]int64{sm.TimestampMs, int64(sm.Value)})
+				o.Samples = append(o.Samples, [2]int64{t, int64(v)})
+			}
+			if it.Next() || it.Seek(0) || it.Next() {
+				panic("sample cursor: a call after the end returned true")
 			}
 			c.Obs = append(c.Obs, o)
+		}
+		if ss.Next() || ss.Next() {
+			panic("SeriesSet.Next returned true after the end")
 		}
 	})
 	if p != "" {
